@@ -816,3 +816,89 @@ def with_callees_inlined(repo, fn: ast.FunctionDef, qual: str, cls_qual=None):
         for child in ast.iter_child_nodes(parent):
             child._parent = parent
     return new
+
+
+def field_gathers(fn: ast.FunctionDef, storage: str = "self.buffer"):
+    """Per-field reads `storage[k][I]` made inside an iteration over all fields of the storage dict (comprehension or for loop over
+    the dict, its keys(), items() or values()).  One record per read:
+    {"sub": Subscript, "index": expr, "owner": loop / comprehension node, "pairing": "name" | "position" | None, "vars": {loop names}}.
+    pairing says how the gathered value meets its field in the result: stored under the field's key, or by position in the dict order."""
+    from .loops import dotted
+
+    def over(it):
+        if dotted(it) == storage:
+            return "keys"
+        if isinstance(it, ast.Call) and isinstance(it.func, ast.Attribute) and it.func.attr in ("keys", "items", "values") and dotted(it.func.value) == storage and not it.args:
+            return it.func.attr
+        if isinstance(it, ast.Call) and isinstance(it.func, ast.Name) and it.func.id in ("list", "tuple") and len(it.args) == 1:
+            return over(it.args[0])
+        return None
+    out = []
+    for n in ast.walk(fn):
+        if isinstance(n, (ast.DictComp, ast.ListComp, ast.GeneratorExp)):
+            if len(n.generators) != 1:
+                continue
+            tgt, it = n.generators[0].target, n.generators[0].iter
+            body = [n.key, n.value] if isinstance(n, ast.DictComp) else [n.elt]
+        elif isinstance(n, ast.For):
+            tgt, it, body = n.target, n.iter, n.body
+        else:
+            continue
+        kind = over(it)
+        if kind is None:
+            continue
+        keyvar = valvar = None
+        if kind == "keys" and isinstance(tgt, ast.Name):
+            keyvar = tgt.id
+        elif kind == "items" and isinstance(tgt, (ast.Tuple, ast.List)) and len(tgt.elts) == 2 and all(isinstance(e, ast.Name) for e in tgt.elts):
+            keyvar, valvar = tgt.elts[0].id, tgt.elts[1].id
+        elif kind == "values" and isinstance(tgt, ast.Name):
+            valvar = tgt.id
+        else:
+            continue
+        reads = []
+        for b in body:
+            for x in ast.walk(b):
+                if not (isinstance(x, ast.Subscript) and isinstance(getattr(x, "ctx", None), ast.Load)):
+                    continue
+                if isinstance(x.value, ast.Subscript) and dotted(x.value.value) == storage and isinstance(x.value.slice, ast.Name) and x.value.slice.id == keyvar:
+                    reads.append(x)
+                elif isinstance(x.value, ast.Name) and valvar is not None and x.value.id == valvar:
+                    reads.append(x)
+        if not reads:
+            continue
+        pairing = None
+        if isinstance(n, ast.DictComp):
+            pairing = "name" if isinstance(n.key, ast.Name) and n.key.id == keyvar else None
+        elif isinstance(n, (ast.ListComp, ast.GeneratorExp)):
+            pairing = "position"
+        else:
+            for st in ast.walk(n):
+                if isinstance(st, ast.Assign) and len(st.targets) == 1 and isinstance(st.targets[0], ast.Subscript) and isinstance(st.targets[0].slice, ast.Name) and st.targets[0].slice.id == keyvar \
+                        and any(r is y for r in reads for y in ast.walk(st.value)):
+                    pairing = "name"
+                elif isinstance(st, ast.Call) and isinstance(st.func, ast.Attribute) and st.func.attr == "append" and st.args and any(r is y for r in reads for y in ast.walk(st.args[0])):
+                    pairing = pairing or "position"
+        for r in reads:
+            out.append({"sub": r, "index": r.slice, "owner": n, "pairing": pairing, "vars": {v for v in (keyvar, valvar) if v}, "kind": kind})
+    return out
+
+
+def storage_rebindings(repo, cls_qual: str, attr: str = "buffer", skip=("__init__", "__setstate__")):
+    """Assignments `self.<attr> = ...` in methods of the class (and its bases) other than the constructors: [(method qual, stmt)]."""
+    out = []
+    for c in repo.mro(cls_qual):
+        try:
+            cn = repo.cls(c)
+        except Exception:
+            continue
+        for m in cn.body:
+            if isinstance(m, ast.FunctionDef) and m.name not in skip:
+                for st in ast.walk(m):
+                    if isinstance(st, (ast.Assign, ast.AnnAssign, ast.AugAssign)):
+                        tgs = st.targets if isinstance(st, ast.Assign) else [st.target]
+                        for t in tgs:
+                            for tt in (t.elts if isinstance(t, (ast.Tuple, ast.List)) else [t]):
+                                if isinstance(tt, ast.Attribute) and tt.attr == attr and isinstance(tt.value, ast.Name) and tt.value.id == "self":
+                                    out.append((f"{c}.{m.name}", st))
+    return out
